@@ -631,8 +631,9 @@ pub fn run_keys(ctx: &Ctx, mut rng: Rng, rep: &mut Report) {
                 for x in <$t>::MIN..=<$t>::MAX {
                     let got = kb.build_key(&x);
                     cnt += 1;
-                    if got != (x as u64, 0) {
-                        rep.violate("C18", "transparent-builder/not-identity", format!("{}: {x} -> {got:?}, expected ({}, 0)", stringify!($t), x as u64), desc.clone());
+                    // the index is the key itself; the conflict hash is free, but a function of the key
+                    if got.0 != x as u64 || got != kb.build_key(&x) || got != (kb.hash_index(&x), kb.hash_conflict(&x)) {
+                        rep.violate("C18", "transparent-builder/not-identity", format!("{}: {x} -> {got:?}, expected index {} and a stable conflict hash", stringify!($t), x as u64), desc.clone());
                     }
                     if !idx.insert(got.0) {
                         rep.violate("C18", "transparent-builder/collision", format!("{}: index {} produced twice", stringify!($t), got.0), desc.clone());
@@ -648,7 +649,7 @@ pub fn run_keys(ctx: &Ctx, mut rng: Rng, rep: &mut Report) {
         {
             let kb = TransparentKeyBuilder::<bool>::default();
             for b in [false, true] {
-                if kb.build_key(&b) != (b as u64, 0) {
+                if kb.build_key(&b).0 != b as u64 || kb.build_key(&b) != kb.build_key(&b) {
                     rep.violate("C18", "transparent-builder/not-identity", format!("bool {b} -> {:?}", kb.build_key(&b)), desc.clone());
                 }
             }
@@ -670,8 +671,9 @@ pub fn run_keys(ctx: &Ctx, mut rng: Rng, rep: &mut Report) {
                 for x in xs {
                     let got = kb.build_key(&x);
                     rep.count(concat!("c18_transparent_sampled_", stringify!($t)));
-                    if got != (x as u64, 0) {
-                        rep.violate("C18", "transparent-builder/not-identity", format!("{}: {x} -> {got:?}, expected ({}, 0)", stringify!($t), x as u64), desc.clone());
+                    // the index is the key itself; the conflict hash is free, but a function of the key
+                    if got.0 != x as u64 || got != kb.build_key(&x) || got != (kb.hash_index(&x), kb.hash_conflict(&x)) {
+                        rep.violate("C18", "transparent-builder/not-identity", format!("{}: {x} -> {got:?}, expected index {} and a stable conflict hash", stringify!($t), x as u64), desc.clone());
                     }
                     if let Some(prev) = pairs.insert(got.0, x) {
                         if prev != x {
